@@ -801,9 +801,18 @@ def _process_step_result_tick(
             if retries is not None:
                 _next_params = inspect.signature(retries.next).parameters
                 _seed_kwarg = {"seed": jitter_seed} if "seed" in _next_params else {}
-                delay = retries.next(
-                    elapsed_time, failures, result.exception, **_seed_kwarg
-                )
+                try:
+                    delay = retries.next(
+                        elapsed_time, failures, result.exception, **_seed_kwarg
+                    )
+                except Exception:
+                    # A failing retry policy must not take down the control loop
+                    # (no terminal event would be published): stop retrying and let
+                    # the step's own exception fail the run through the normal path.
+                    logger.exception(
+                        "Retry policy of step %s raised; not retrying", tick.step_name
+                    )
+                    delay = None
             else:
                 delay = None
             if delay is not None:
